@@ -53,6 +53,14 @@ def strategy_(draw, tier):
     if opts:
         case["kw"]["optimization_options"] = opts
     case["meta"]["lb_mode"] = mode
+    kw = case["kw"]
+    if kw.get("subpath_constraints") and kw.get("flow_attr_origin") != "node" and draw(st.integers(0, 3)) == 0:
+        # coverage measured in edge length instead of edge count
+        lens = draw(st.lists(st.integers(1, 4), min_size=len(case["graph"]["edges"]), max_size=len(case["graph"]["edges"])))
+        for e, l in zip(case["graph"]["edges"], lens):
+            e[2]["len"] = l
+        kw["length_attr"] = "len"
+        kw["subpath_constraints_coverage_length"] = kw.pop("subpath_constraints_coverage", 1.0)
     return case
 
 
@@ -60,26 +68,27 @@ def strategy(tier):
     return strategy_(tier)
 
 
-def constraint_predicate(routes, constraints, coverage, node_mode):
-    """predicate(sub) for bf: every constraint is covered to >= coverage in ONE chosen route."""
+def constraint_predicate(routes, constraints, coverage, node_mode, lengths=None):
+    """predicate(sub) for bf: every constraint is covered to >= coverage (edge count, or edge length) in ONE chosen route."""
     if not constraints:
         return None
     sets = []
     for r in routes:
         sets.append(set(r) if node_mode else set(zip(r[:-1], r[1:])))
     cons = [[(x if node_mode else tuple(x)) for x in c] for c in constraints]
+    ln = (lambda x: lengths.get(x, 1)) if lengths is not None else (lambda x: 1)
 
     def pred(sub):
         for c in cons:
-            need = len(c) * coverage
-            if not any(sum(1 for x in c if x in sets[i]) >= need - 1e-9 for i in sub):
+            need = sum(ln(x) for x in c) * coverage
+            if not any(sum(ln(x) for x in c if x in sets[i]) >= need - 1e-9 for i in sub):
                 return False
         return True
 
     return pred
 
 
-def _planted_is_witness(G, planted, f_req, constraints, coverage, node_mode, wt):
+def _planted_is_witness(G, planted, f_req, constraints, coverage, node_mode, wt, lengths=None):
     """Re-validate the generator's witness (shrunk replay files may carry a stale one)."""
     try:
         acc = Counter()
@@ -90,12 +99,8 @@ def _planted_is_witness(G, planted, f_req, constraints, coverage, node_mode, wt)
                 acc[el] += w
         if any(abs(acc.get(el, 0) - fe) > 1e-9 for el, fe in f_req.items()):
             return False
-        sets = [set(p) if node_mode else set(zip(p[:-1], p[1:])) for p, _w in planted]
-        for c in constraints:
-            cc = [(x if node_mode else tuple(x)) for x in c]
-            if not any(sum(1 for x in cc if x in s) >= len(cc) * coverage - 1e-9 for s in sets):
-                return False
-        return True
+        pred = constraint_predicate([list(p) for p, _w in planted], constraints, coverage, node_mode, lengths)
+        return pred is None or pred(tuple(range(len(planted))))
     except Exception:
         return False
 
@@ -129,6 +134,13 @@ def run_case(case, tier="quick"):
         return invalid_config("no non-ignored weighted element")
     constraints = kw.get("subpath_constraints", [])
     coverage = kw.get("subpath_constraints_coverage", 1.0)
+    lengths = None
+    if kw.get("subpath_constraints_coverage_length") is not None:
+        if node_mode or kw.get("length_attr") != "len":
+            return invalid_config("length coverage only generated for edge mode with attribute 'len'")
+        coverage = kw["subpath_constraints_coverage_length"]
+        lengths = {(u, v): d.get("len", 1) for u, v, d in G.edges(data=True)}
+        labels.add("length_coverage")
     if constraints:
         labels.add("constraints")
     if ignored:
@@ -154,7 +166,7 @@ def run_case(case, tier="quick"):
         if not (r2.ctor_error or r2.solve_error) and r2.solved:
             return inconclusive("failure only with the harness-reduced scanning window", labels)
         r = r2
-    witness = bool(meta.get("planted")) and _planted_is_witness(G, meta["planted"], f_req, constraints, coverage, node_mode, wt)
+    witness = bool(meta.get("planted")) and _planted_is_witness(G, meta["planted"], f_req, constraints, coverage, node_mode, wt, lengths)
     if not witness and (r.ctor_error or r.solve_error or not r.solved):
         return invalid_config("no valid planted witness in the case: decomposability unknown")
     if r.ctor_error:
@@ -188,11 +200,10 @@ def run_case(case, tier="quick"):
     if any(w < -TOL for w in weights):
         return violation("negative_weight", f"{weights}", labels)
     # constraints honoured
-    routes_sets = [set(p) if node_mode else set(zip(p[:-1], p[1:])) for p in paths]
     for c in constraints:
-        cc = [(x if node_mode else tuple(x)) for x in c]
-        if not any(sum(1 for x in cc if x in s) >= len(cc) * coverage - 1e-9 for s in routes_sets):
-            return violation("constraint_not_covered", f"constraint {c} (coverage {coverage}) in no single path of {paths}", labels, facts=facts)
+        p1 = constraint_predicate(paths, [c], coverage, node_mode, lengths)
+        if not p1(tuple(range(len(paths)))):
+            return violation("constraint_not_covered", f"constraint {c} (coverage {coverage}{' by length' if lengths else ''}) in no single path of {paths}", labels, facts=facts)
     n = len(paths)
     facts["reported"] = n
     # (i) planted witness bound
@@ -212,7 +223,7 @@ def run_case(case, tier="quick"):
     exhaustive = False
     if all_paths is not None and n >= 1:
         route_mults = [Counter(p) if node_mode else Counter(zip(p[:-1], p[1:])) for p in all_paths]
-        pred = constraint_predicate(all_paths, constraints, coverage, node_mode)
+        pred = constraint_predicate(all_paths, constraints, coverage, node_mode, lengths)
         found, wit = bf.exists_fd_with_at_most(route_mults, n - 1, f_req, wt, pred)
         exhaustive = True
         if found:
